@@ -13,6 +13,8 @@ use std::sync::Mutex;
 use crate::common::Ctx;
 
 pub static CURRENT: AtomicU64 = AtomicU64::new(u64::MAX);
+/// secondary position inside the current case (e.g. program index); reported with a crash
+pub static DETAIL: AtomicU64 = AtomicU64::new(0);
 static TICK: AtomicU64 = AtomicU64::new(0);
 
 extern "C" fn on_abort(_sig: libc::c_int) {
@@ -21,6 +23,9 @@ extern "C" fn on_abort(_sig: libc::c_int) {
     let s = fmt_line(b"CRASH abort ", idx, &mut buf);
     unsafe {
         libc::write(1, s.as_ptr() as *const libc::c_void, s.len());
+        let mut buf2 = [0u8; 64];
+        let s2 = fmt_line(b"DETAIL ", DETAIL.load(Ordering::SeqCst), &mut buf2);
+        libc::write(1, s2.as_ptr() as *const libc::c_void, s2.len());
         libc::_exit(3);
     }
 }
@@ -76,6 +81,9 @@ pub fn worker_guard(mem_limit_bytes: u64, hang_ms: u64) {
                     let s = fmt_line(b"CRASH hang ", now.0, &mut buf);
                     unsafe {
                         libc::write(1, s.as_ptr() as *const libc::c_void, s.len());
+                        let mut buf2 = [0u8; 64];
+                        let s2 = fmt_line(b"DETAIL ", DETAIL.load(Ordering::SeqCst), &mut buf2);
+                        libc::write(1, s2.as_ptr() as *const libc::c_void, s2.len());
                         libc::_exit(4);
                     }
                 }
@@ -93,6 +101,31 @@ pub fn set_current(idx: u64) {
     TICK.fetch_add(1, Ordering::SeqCst);
 }
 
+/// For `vcheck replay`: an abort (allocation failure) or a hang while replaying is the reproduction.
+pub fn replay_guard(prop: &str, path: &str, mem_limit_bytes: u64, hang_ms: u64) {
+    let line = format!("\nVIOLATION property={prop} replay={path}\n  rule=process_abort_or_hang the replayed case aborted the process (allocation failure) or did not return\n");
+    let leaked: &'static [u8] = Box::leak(line.into_bytes().into_boxed_slice());
+    REPLAY_LINE_PTR.store(leaked.as_ptr() as usize, Ordering::SeqCst);
+    REPLAY_LINE_LEN.store(leaked.len(), Ordering::SeqCst);
+    unsafe {
+        let lim = libc::rlimit { rlim_cur: mem_limit_bytes, rlim_max: mem_limit_bytes };
+        libc::setrlimit(libc::RLIMIT_AS, &lim);
+        libc::signal(libc::SIGABRT, on_replay_abort as usize);
+    }
+    std::thread::spawn(move || {
+        std::thread::sleep(std::time::Duration::from_millis(hang_ms));
+        on_replay_abort(0);
+    });
+}
+static REPLAY_LINE_PTR: AtomicUsize = AtomicUsize::new(0);
+static REPLAY_LINE_LEN: AtomicUsize = AtomicUsize::new(0);
+extern "C" fn on_replay_abort(_sig: libc::c_int) {
+    unsafe {
+        libc::write(1, REPLAY_LINE_PTR.load(Ordering::SeqCst) as *const libc::c_void, REPLAY_LINE_LEN.load(Ordering::SeqCst));
+        libc::_exit(1);
+    }
+}
+
 pub fn idle() {
     CURRENT.store(u64::MAX, Ordering::SeqCst);
 }
@@ -102,6 +135,8 @@ pub struct IsoOutcome {
     pub lines: Vec<String>,
     /// (kind, case index) of crashed cases
     pub crashes: Vec<(String, u64)>,
+    /// case index -> DETAIL value at the time of the crash
+    pub crash_detail: std::collections::HashMap<u64, u64>,
     pub completed: u64,
     pub complete: bool,
     pub machinery_errors: Vec<String>,
@@ -118,6 +153,7 @@ pub fn run_isolated(ctx: &Ctx, prop: &str, family: &str, total: u64, arg: &str) 
     let out = Mutex::new(IsoOutcome {
         lines: vec![],
         crashes: vec![],
+        crash_detail: Default::default(),
         completed: 0,
         complete: true,
         machinery_errors: vec![],
@@ -153,6 +189,7 @@ pub fn run_isolated(ctx: &Ctx, prop: &str, family: &str, total: u64, arg: &str) 
                     let mut lines = vec![];
                     let mut crash: Option<(String, u64)> = None;
                     let mut done = false;
+                    let mut detail = 0u64;
                     for line in rd.lines() {
                         let Ok(line) = line else { break };
                         if line.is_empty() {
@@ -163,6 +200,8 @@ pub fn run_isolated(ctx: &Ctx, prop: &str, family: &str, total: u64, arg: &str) 
                             let kind = it.next().unwrap_or("?").to_string();
                             let idx = it.next().and_then(|x| x.parse::<u64>().ok()).unwrap_or(u64::MAX);
                             crash = Some((kind, idx));
+                        } else if let Some(rest) = line.strip_prefix("DETAIL ") {
+                            detail = rest.trim().parse().unwrap_or(0);
                         } else if line == "DONE" {
                             done = true;
                         } else {
@@ -179,6 +218,7 @@ pub fn run_isolated(ctx: &Ctx, prop: &str, family: &str, total: u64, arg: &str) 
                     match crash {
                         Some((kind, idx)) if idx >= start && idx < end && (idx - start) % step == 0 => {
                             o.crashes.push((kind, idx));
+                            o.crash_detail.insert(idx, detail);
                             o.completed += (idx - start) / step + 1;
                             start = idx + step;
                         }
